@@ -54,9 +54,9 @@ StrProjOn(b, start) ==
 \* the walk reads the table left to right and stops after 64 strings: when those lie in the first 4 KiB of a long
 \* table, the rest of the table need not be looked at (same answer by construction; otherwise the whole range is used)
 StrProj(f, start, len) ==
-    IF len <= 4096 THEN StrProjOn(FSub(f, start, len), start)
-    ELSE LET ps == StrProjOn(FSub(f, start, 4096), start)
-         IN IF ps.nstr = 64 THEN ps ELSE StrProjOn(FSub(f, start, len), start)
+    IF len <= 4096 THEN StrProjOn(TLCEval(FSub(f, start, len)), start)
+    ELSE LET ps == StrProjOn(TLCEval(FSub(f, start, 4096)), start)
+         IN IF ps.nstr = 64 THEN ps ELSE StrProjOn(TLCEval(FSub(f, start, len)), start)
 
 \* lazy table projection at the indices the recorder chose
 TblProj(ty, class, little, b, idx) ==
@@ -221,7 +221,7 @@ ShiftNote(n, base) ==
       [] n.k = "buildid" -> [n EXCEPT !.desc = ShiftR(@, base)]
       [] OTHER -> n
 NotesAt(f, eb, start, len, alignW) ==
-    LET ns == Notes(eb.little, alignW, FSub(f, start, len))
+    LET ns == Notes(eb.little, alignW, TLCEval(FSub(f, start, len)))     \* (TLCEval: the bytes are computed once, not at every recursion level)
     IN [i \in 1..Len(ns) |-> ShiftNote(ns[i], start)]
 
 \* symbol_table / dynamic_symbol_table (elf_bytes.rs:608-705): first section of the type
